@@ -8,6 +8,7 @@ stdout: one JSON line per case:
 The objects are built from abstract descriptions through the public API only
 (see harness/props/c05.py for the description format).
 """
+import hashlib
 import json
 import logging
 import sys
@@ -30,9 +31,17 @@ def mk_np(a):
     mask = [v is None for v in vals]
     if a["dt"] == "U":
         filled = [code_str(0) if v is None else code_str(v) for v in vals]
-        arr = np.array(filled, dtype=str).reshape(shape) if filled else np.empty(shape, dtype="U2")
+        if a.get("w"):
+            # a string array held in memory wider than its longest element
+            arr = np.array(filled, dtype="U%d" % a["w"]).reshape(shape)
+        else:
+            arr = np.array(filled, dtype=str).reshape(shape) if filled else np.empty(shape, dtype="U2")
     else:
         filled = [0 if v is None else v for v in vals]
+        if a.get("ticks"):
+            # value + ticks * 2**-60: differences far below the default tolerances
+            # (only generated where the sum is exactly representable in float64)
+            filled = [float(v) + t * 2.0 ** -60 for v, t in zip(filled, a["ticks"])]
         arr = np.array(filled, dtype=DT[a["dt"]]).reshape(shape)
     if any(mask) or a.get("ma"):
         arr = np.ma.array(arr, mask=np.array(mask, dtype=bool).reshape(shape))
@@ -181,6 +190,98 @@ def conv_opts(obj, o):
     return kw
 
 
+# ---- fingerprints: everything observable about an operand, to show that equals is pure --------
+def _fpv(v):
+    if isinstance(v, np.ndarray):
+        m = np.ma.getmaskarray(v).ravel().tolist()
+        d = np.ma.getdata(v).ravel().tolist()
+        return ("nd", str(v.dtype), tuple(v.shape), [None if mm else repr(x) for x, mm in zip(d, m)])
+    if isinstance(v, cfdm.Data):
+        return _fp_data(v)
+    if isinstance(v, (list, tuple)):
+        return [_fpv(x) for x in v]
+    if isinstance(v, dict):
+        return sorted((str(k), _fpv(x)) for k, x in v.items())
+    return repr(v)
+
+
+def _fp_data(d):
+    if d is None:
+        return None
+    return ("D", _fpv(d.array), d.get_units(None), d.get_calendar(None), repr(d.get_fill_value(None)),
+            d.get_compression_type())
+
+
+def _fp(o):
+    if isinstance(o, cfdm.Data):
+        return _fp_data(o)
+    if isinstance(o, (cfdm.Field, cfdm.Domain)):
+        da = o.constructs.data_axes()
+        cons = sorted((k, c.construct_type, repr(da.get(k)), _fp(c)) for k, c in o.constructs.todict().items())
+        dat, dax = None, None
+        if isinstance(o, cfdm.Field):
+            dat = _fp_data(o.get_data(None))
+            dax = repr(o.get_data_axes(default=None))
+        return ("F", type(o).__name__, _fpv(o.properties()), dat, dax, cons)
+    if isinstance(o, cfdm.CellMethod):
+        return ("cm", repr(o.get_axes(None)), repr(o.get_method(None)), _fpv(o.qualifiers()))
+    if isinstance(o, cfdm.CoordinateReference):
+        return ("cr", sorted(o.coordinates()), _fpv(o.datum.parameters()),
+                _fpv(o.coordinate_conversion.parameters()), _fpv(o.coordinate_conversion.domain_ancillaries()))
+    if isinstance(o, cfdm.DomainAxis):
+        return ("ax", repr(o.get_size(None)))
+    if hasattr(o, "properties"):
+        out = ["pd", type(o).__name__, _fpv(o.properties()), _fp_data(o.get_data(None)) if hasattr(o, "get_data") else None]
+        for name in ("get_bounds", "get_interior_ring"):
+            if hasattr(o, name):
+                b = getattr(o, name)(None)
+                out.append(None if b is None else _fp(b))
+        for name in ("get_geometry", "get_measure", "nc_get_variable", "get_cell", "get_connectivity"):
+            if hasattr(o, name):
+                out.append(repr(getattr(o, name)(None)))
+        if hasattr(o, "nc_get_external"):
+            out.append(repr(o.nc_get_external()))
+        return out
+    return repr(o)
+
+
+def fp(o):
+    try:
+        return hashlib.sha1(repr(_fp(o)).encode()).hexdigest()[:16]
+    except Exception as e:  # noqa
+        return "FPERR:" + type(e).__name__ + ":" + str(e)[:80]
+
+
+def sequence(x, y, kw):
+    """Repeated and reversed comparisons on the SAME two objects; equals must be pure."""
+    out = {}
+    hasy = hasattr(y, "equals")
+    xc = x.copy()
+    yc = y.copy() if hasy and type(y) is type(x) else None
+    f0 = (fp(x), fp(y))
+    out["first"] = call(lambda: x.equals(y, **kw))
+    f1 = (fp(x), fp(y))
+    if hasy and type(y) is type(x):
+        out["rev"] = call(lambda: y.equals(x, **kw))
+    f2 = (fp(x), fp(y))
+    out["again"] = call(lambda: x.equals(y, **kw))
+    f3 = (fp(x), fp(y))
+    out["xcopy"] = call(lambda: x.equals(xc, **kw))
+    if yc is not None:
+        out["ycopy"] = call(lambda: y.equals(yc, **kw))
+        out["rev2"] = call(lambda: y.equals(x, **kw))
+    f4 = (fp(x), fp(y))
+    changed = []
+    for name, f in (("first", f1), ("rev", f2), ("again", f3), ("copies", f4)):
+        if f[0] != f0[0]:
+            changed.append(name + ":self")
+        if f[1] != f0[1]:
+            changed.append(name + ":other")
+    out["changed"] = changed
+    out["fperr"] = [f for f in f0 if f.startswith("FPERR")]
+    return out
+
+
 def call(fn):
     try:
         r = fn()
@@ -206,6 +307,8 @@ def main():
         kw = conv_opts(x, c["opts"])
         row = call(lambda: x.equals(y, **kw))
         row["kw"] = sorted(kw)
+        if c.get("seq"):
+            row["seq"] = sequence(x, y, kw)
         if c.get("extra"):
             row["self"] = call(lambda: x.equals(x, **kw))
             row["copy"] = call(lambda: x.equals(x.copy(), **kw))
